@@ -151,3 +151,37 @@ func VerifSaveScript(path string, rawText string, mk bool, ops []VerifFixOp) (li
 	})
 	return
 }
+
+// VerifC09Reload (round 5): the same *.mk file loaded twice in one run through the
+// real file cache, under two LoadOptions sets. rawText is written to path (whose
+// name ends in .mk: only those are cached), G is fresh; the first load is
+// LoadMk(path, nil, first) when viaLoadMk (first then gets the Makefile bit, as
+// in every real Makefile-mode load), else Load(path, first); the second is
+// Load(path, second). Reported: the lines of the second load (isNil when Load
+// returned nil), how many cache hits the run had, and panics. A panic of the
+// first load is reported separately (parsing hostile text is not C09's subject).
+func VerifC09Reload(path string, rawText string, first, second int, viaLoadMk bool) (lines []VerifLine, isNil bool, hits int, firstPanicked, panicked string) {
+	var out bytes.Buffer
+	G = NewPkglint(&out, &out)
+	if err := os.WriteFile(path, []byte(rawText), 0o644); err != nil {
+		return nil, false, 0, "", "panic: " + err.Error()
+	}
+	p := NewCurrPathString(path)
+	firstPanicked = VerifPanic(func() {
+		if viaLoadMk {
+			_ = LoadMk(p, nil, LoadOptions(first))
+		} else {
+			_ = Load(p, LoadOptions(first))
+		}
+	})
+	panicked = VerifPanic(func() {
+		res := Load(p, LoadOptions(second))
+		if res == nil {
+			isNil = true
+			return
+		}
+		lines = verifLines(res)
+	})
+	hits = G.fileCache.hits
+	return
+}
